@@ -30,6 +30,8 @@ ScenarioFails(ev) ==
              (SeqToSet(ev.flexible) = Ring(ev.n, ev.flex_offset, RAdd(ev.flex_offset, RMul(RInt(2), ev.flex_width))) /\ ev.flexible_unit)
         THEN {} ELSE {"flexible_then_integrate_radial"})
   \cup (IF SeqToSet(ev.segmented_sum) = want /\ ev.segmented_unit THEN {} ELSE {"segments_sum"})
+  \* the same detector objects after they have detected wave functions of the same gpts and another angular sampling
+  \cup (IF SeqToSet(ev.annular_reused) = want /\ SeqToSet(ev.segmented_reused) = want THEN {} ELSE {"detector_used_before_on_another_grid"})
   \cup (IF SeqToSet(ev.split_low) \cup SeqToSet(ev.split_high) = want /\ SeqToSet(ev.split_low) \cap SeqToSet(ev.split_high) = {}
            /\ SeqToSet(ev.split_low) = Ring(ev.n, ev.inner, ev.mid) THEN {} ELSE {"additive_over_adjacent_ranges"})
   \* the adjacent ranges integrated one after the other from ONE pattern object (which was integrated over the whole range before)
